@@ -396,6 +396,8 @@ class ClassDiagram:
         """
         # Rebuild a fresh diagram from the same classes to avoid mutating this instance
         result = copy(self)
+        # copy() is shallow: give the result its own graph before removing edges from it
+        result._dependency_graph = self._dependency_graph.copy()
         # Convenience locals
         g = result._dependency_graph
 
